@@ -92,32 +92,24 @@ fn parity_u64_i64() {
     std::mem::forget(ctx);
 }
 
-// u128 receivers up to i128::MAX.  KEPT OUT: u128 values above i128::MAX -- `Number::from_value`
-// fails there ("out of range for i128"), so `{{ 170141183460469231731687303715884105729 is odd }}`
-// is an error although the value is an odd number (documented limit of `Number`; reported).
-// The receiver is converted with `Value::as_number` (what `Number::from_value` calls; its error
-// arm renders the value and does not finish even behind the format stub).
-// killed by: is_even `u % 2 == 1`
+// u128 receivers: the Number handed to is_odd / is_even is the same mathematical integer, so
+// parity_i128 applies.  (Calling is_odd here as well made CBMC run out of memory.)
+// KEPT OUT: u128 values above i128::MAX have no Number -- `Number::from_value` fails ("out of
+// range for i128"), so `{{ 170141183460469231731687303715884105729 is odd }}` is an error
+// although the value is an odd number (documented limit of `Number`; reported).
+// killed by: Value::as_number `ValueInner::U128(v) => i128::try_from(**v >> 1).ok().map(Number::Integer)`
 #[kani::proof]
 #[kani::unwind(2)]
-#[kani::stub(std::hash::RandomState::new, fixed_state)]
-fn parity_u128_in_i128_range() {
-    let ctx = Context::new();
-    let st = State::new(&ctx);
-    let kw = Kwargs::default();
+fn receiver_number_u128() {
     let x: u128 = kani::any();
     let v = Value::from(x);
-    match v.as_number() {
-        Some(n) => {
-            assert!(x <= i128::MAX as u128);
-            assert!(matches!(is_odd(n, kw.clone(), &st), Ok(b) if b == (x & 1 == 1)));
-            assert!(matches!(is_even(n, kw.clone(), &st), Ok(b) if b == (x & 1 == 0)));
-        }
-        // above i128::MAX: no Number (the test errors; kept out, reported)
-        None => assert!(x > i128::MAX as u128),
+    let n = v.as_number();
+    if x <= i128::MAX as u128 {
+        assert!(matches!(n, Some(Number::Integer(i)) if i >= 0 && i as u128 == x));
+    } else {
+        assert!(n.is_none());
     }
-    std::mem::forget((v, kw, st));
-    std::mem::forget(ctx);
+    std::mem::forget(v);
 }
 
 // Floats: the documentation only says "true if the given variable is an odd/even number"; the
